@@ -59,6 +59,19 @@ Proof.
 Qed.
 Print Assumptions C10_undeclared_argument.
 
+(* The same at the level of the specification the whole executor refines (exec_op_refines, for
+   every document whose arguments are not repeated): a selection with arguments the object type's
+   field does not declare yields one error per such argument at the selection, no entry, and no
+   resolver call - C01_data_exact / C06_errors_exact / C11_repeatable carry this to whole responses
+   and histories. *)
+Theorem C10_spec_undeclared_argument :
+  forall S G frags any vars fuel obj id alias name args fsels t depth path b bad,
+    undeclared_args S t name args = b :: bad ->
+    sem_field S G frags any vars (Datatypes.S fuel) obj id alias name args fsels t depth path =
+    Done ([], map (fun _ => mkErr (path ++ [PKey (key_of alias name)]) LOther EBadArg) (b :: bad), []).
+Proof. intros. rewrite sem_field_eq. cbv zeta. rewrite H. reflexivity. Qed.
+Print Assumptions C10_spec_undeclared_argument.
+
 (* A required argument that is not supplied: formArgs reports it ... *)
 Theorem C10_missing_required_reported :
   forall S vars id fd cur d,
